@@ -10,7 +10,7 @@ Definition maxMessageSize : N := 8388608%N.
 Definition maxConsensusMsgSize : N := 8388608%N.
 Definition maxPartialSignatureMsgSize : N := 1952%N.
 Definition maxEncodedMsgSize : N := 9227600%N.
-Definition allowedRoundsInFuture : N := 2%N.
+Definition allowedRoundsInFuture : N := 1%N.
 Definition lateSlotAllowance : N := 2%N.
 Definition signatureSize : N := 96%N.
 Definition maxDutiesPerEpoch : Z := 2%Z.
